@@ -45,6 +45,9 @@ type Seed struct {
 func (s *Seed) ID() string { return s.Format + "#" + strconv.Itoa(s.Rank) }
 
 func (s *Seed) Origin() string {
+	if s.Class == 3 {
+		return strings.TrimSpace("synthetic literal " + s.VPath)
+	}
 	if s.Class == 1 {
 		return fmt.Sprintf("%s -d %s %s [%d:%d]", s.Path, s.Via, s.VPath, s.Start, s.Start+s.Len)
 	}
@@ -335,9 +338,10 @@ func (w *worker) selectSeeds(files []corpus.File, k int, maxSeed int64, maxVal i
 		}
 	}
 	for _, sy := range synthetic {
-		if len(tk.m[sy.format]) == 0 {
+		if len(tk.m[sy.format]) == 0 || sy.extra {
 			if _, err := interp.DefaultRegistry.Group(sy.format); err == nil {
-				tk.m[sy.format] = []*Seed{{Format: sy.format, Class: 3, Path: "(synthetic literal)", Len: int64(len(sy.data)), Hash: hashBytes([]byte(sy.data)), Data: []byte(sy.data)}}
+				tk.m[sy.format] = append(tk.m[sy.format], &Seed{Format: sy.format, Class: 3, Path: "(synthetic literal)", VPath: sy.name,
+					Len: int64(len(sy.data)), Hash: hashBytes([]byte(sy.data)), Data: []byte(sy.data)})
 			}
 		}
 	}
@@ -380,7 +384,7 @@ func readScan(path string) []*Seed {
 func rebuildSeed(repo string, s *Seed) ([]byte, error) {
 	if s.Class == 3 {
 		for _, sy := range synthetic {
-			if sy.format == s.Format {
+			if sy.format == s.Format && sy.name == s.VPath {
 				return []byte(sy.data), nil
 			}
 		}
@@ -419,14 +423,23 @@ func rebuildSeed(repo string, s *Seed) ([]byte, error) {
 // synthetic: literal seeds, written from the formats' specifications, for formats
 // that have no sample file in the repository (their tests feed literals through jq).
 // Only used when the corpus scan found nothing for the format (class 3).
-var synthetic = []struct{ format, data string }{
-	{"cbor", "\xa2\x61a\x83\x01\x02\x03\x61b\xf5"}, // {"a":[1,2,3],"b":true}
-	{"csv", "a,b,c\n1,2,3\n"},
-	{"toml", "a = 1\n[b]\nc = \"d\"\n"},
-	{"yaml", "a: 1\nb:\n  - c\n  - d\n"},
-	{"jsonl", "{\"a\":1}\n[1,2]\n"},
-	{"bits", "\x00\x01\x02\x03\x04\x05\x06\x07\x08\x09\x0a\x0b\x0c\x0d\x0e\x0f"},
-	{"id3v11", "TAG" + "title\x00\x00\x00\x00\x00\x00\x00\x00\x00\x00\x00\x00\x00\x00\x00\x00\x00\x00\x00\x00\x00\x00\x00\x00\x00" +
+var synthetic = []struct {
+	format, data string
+	name         string
+	extra        bool // used in addition to the corpus seeds of the format
+}{
+	// pcap, little endian, link type RAW (101): the link type whose frame decoder gets
+	// the packet bytes without any framing; one packet with a 20 byte IPv4 header
+	{format: "pcap", name: "linktype-raw", extra: true, data: "\xd4\xc3\xb2\xa1\x02\x00\x04\x00\x00\x00\x00\x00\x00\x00\x00\x00\xff\xff\x00\x00\x65\x00\x00\x00" +
+		"\x01\x00\x00\x00\x00\x00\x00\x00\x14\x00\x00\x00\x14\x00\x00\x00" +
+		"\x45\x00\x00\x14\x00\x00\x00\x00\x40\x11\x00\x00\x7f\x00\x00\x01\x7f\x00\x00\x01"},
+	{format: "cbor", data: "\xa2\x61a\x83\x01\x02\x03\x61b\xf5"}, // {"a":[1,2,3],"b":true}
+	{format: "csv", data: "a,b,c\n1,2,3\n"},
+	{format: "toml", data: "a = 1\n[b]\nc = \"d\"\n"},
+	{format: "yaml", data: "a: 1\nb:\n  - c\n  - d\n"},
+	{format: "jsonl", data: "{\"a\":1}\n[1,2]\n"},
+	{format: "bits", data: "\x00\x01\x02\x03\x04\x05\x06\x07\x08\x09\x0a\x0b\x0c\x0d\x0e\x0f"},
+	{format: "id3v11", data: "TAG" + "title\x00\x00\x00\x00\x00\x00\x00\x00\x00\x00\x00\x00\x00\x00\x00\x00\x00\x00\x00\x00\x00\x00\x00\x00\x00" +
 		"artist\x00\x00\x00\x00\x00\x00\x00\x00\x00\x00\x00\x00\x00\x00\x00\x00\x00\x00\x00\x00\x00\x00\x00\x00" +
 		"album\x00\x00\x00\x00\x00\x00\x00\x00\x00\x00\x00\x00\x00\x00\x00\x00\x00\x00\x00\x00\x00\x00\x00\x00\x00" +
 		"2024" + "comment\x00\x00\x00\x00\x00\x00\x00\x00\x00\x00\x00\x00\x00\x00\x00\x00\x00\x00\x00\x00\x00\x00\x00" + "\x0c"},
